@@ -21,7 +21,7 @@ ASSUMPTIONS = [
     "a backend that lacks a feature raises NotImplementedError, which pySigma deliberately does not collect: failure stages are the four the property names, all Sigma errors",
     "correlation rules are C09/C10's subject; here collections contain detection rules only",
 ]
-KINDS = ["ok1", "ok2", "pipefail", "placeholder", "badvalue", "missingdet"]
+KINDS = ["ok1", "ok2", "pipefail", "placeholder", "badvalue", "missingdet", "oknot", "notplaceholder"]
 
 
 def rule_doc(kind, i):
@@ -36,6 +36,10 @@ def rule_doc(kind, i):
         base["detection"] = {"sel": {"fieldA|expand": f"%nope{i}%"}, "condition": "sel"}
     elif kind == "badvalue":
         base["detection"] = {"sel": {"fieldA": f"v{i}"}, "kw": [True], "condition": "sel and kw"}
+    elif kind == "oknot":
+        base["detection"] = {"sel": {"fieldA": f"v{i}"}, "flt": {"fieldB|startswith": "begin", "fieldA": f"w{i}"}, "condition": "sel and not flt"}
+    elif kind == "notplaceholder":      # fails below a NOT, after the pipeline was applied
+        base["detection"] = {"sel": {"fieldA": f"v{i}"}, "flt": {"fieldB|expand": f"%nope{i}%"}, "condition": "sel and not flt"}
     elif kind == "missingdet":
         base["detection"] = {"sel": {"fieldA": f"v{i}"}, "condition": "sel and nosuchdetection"}
     return base
@@ -46,6 +50,18 @@ PIPE = {"name": "p", "priority": 10, "transformations": [
     {"id": "boom", "type": "rule_failure", "message": "not supported", "rule_conditions": [{"type": "logsource", "category": "fail"}]},
 ]}
 PIPE_NOFAIL = {"name": "p", "priority": 10, "transformations": [PIPE["transformations"][0]]}
+# a static added condition followed by in-place field and value transformations, and a conditional state
+PIPE_ADD = {"name": "p", "priority": 10, "transformations": [
+    {"id": "add", "type": "add_condition", "conditions": {"source": "eventlog", "n": [1, 2]}},
+    {"id": "pre", "type": "field_name_prefix", "prefix": "win."},
+    {"id": "suf", "type": "field_name_suffix", "suffix": ".keyword", "field_name_conditions": [{"type": "include_fields", "fields": ["win.source"]}]},
+    {"id": "rep", "type": "replace_string", "regex": "^", "replacement": "x"},
+    PIPE["transformations"][1],
+]}
+PIPES = {False: PIPE_NOFAIL, True: PIPE, "add": PIPE_ADD}
+# backend variants: class attributes of a fresh TextQueryTestBackend subclass
+BACKENDS = {"std": {}, "noteq": {"convert_not_as_not_eq": True, "not_eq_token": "!="},
+            "noin": {"convert_or_as_in": False, "convert_and_as_in": False}}
 
 
 def gen_cases(tier, seed, gen, effort):
@@ -59,19 +75,21 @@ def gen_cases(tier, seed, gen, effort):
         arrs.append(tuple(rnd.choice(KINDS) for _ in range(rnd.randint(4, 6))))
     cases = []
     for a in arrs:
-        for pipe in (True, False):
-            if not pipe and "pipefail" in a and rnd.random() < 0.5:
+        for pipe in (True, False, "add"):
+            if pipe is not True and (len(a) > 2 and rnd.random() < 0.6):
                 continue
             for collect in (True, False):
-                cases.append({"kinds": list(a), "pipe": pipe, "collect": collect})
+                be = "std" if rnd.random() < 0.5 else rnd.choice(["noteq", "noin"])
+                cases.append({"kinds": list(a), "pipe": pipe, "collect": collect, "backend": be})
     return cases, False
 
 
-def mk_backend(pipe, collect):
+def mk_backend(pipe, collect, be="std"):
     from sigma.backends.test import TextQueryTestBackend
     from sigma.processing.pipeline import ProcessingPipeline
-    pl = ProcessingPipeline.from_dict(copy.deepcopy(PIPE if pipe else PIPE_NOFAIL))
-    return TextQueryTestBackend(pl, collect_errors=collect)
+    pl = ProcessingPipeline.from_dict(copy.deepcopy(PIPES[pipe]))
+    cls = type("B_" + be, (TextQueryTestBackend,), dict(BACKENDS[be]))       # a fresh class per backend: no shared class state
+    return cls(pl, collect_errors=collect)
 
 
 def run_impl(case):
@@ -80,12 +98,12 @@ def run_impl(case):
     solo = []
     for d in docs:
         try:
-            b = mk_backend(case["pipe"], False)
+            b = mk_backend(case["pipe"], False, case.get("backend", "std"))
             solo.append({"ok": b.convert(SigmaCollection.from_dicts([copy.deepcopy(d)]))})
         except Exception as e:
             solo.append({"err": outcome_of_exception(e)})
     try:
-        b = mk_backend(case["pipe"], case["collect"])
+        b = mk_backend(case["pipe"], case["collect"], case.get("backend", "std"))
         coll = SigmaCollection.from_dicts(copy.deepcopy(docs))
         out = b.convert(coll)
         return {"outcome": "ok", "output": out, "errors": [[r.title, outcome_of_exception(e)] for r, e in b.errors], "solo": solo}
@@ -109,10 +127,10 @@ def judge(case, impl, reply):
     io = impl["outcome"]
     solo = impl["solo"]
     kinds = case["kinds"]
-    key = (kinds, case["pipe"], case["collect"])
+    key = (kinds, case["pipe"], case["collect"], case.get("backend", "std"))
     fails = [i for i, s in enumerate(solo) if "err" in s]
     nt = 0 < len(fails) < len(kinds)
-    tags = (f"n:{len(kinds)}", f"fails:{min(len(fails), 3)}", f"collect:{case['collect']}", f"pipe:{case['pipe']}", f"impl:{io.split(':')[0]}")
+    tags = (f"n:{len(kinds)}", f"fails:{min(len(fails), 3)}", f"collect:{case['collect']}", f"pipe:{case['pipe']}", f"backend:{case.get('backend', 'std')}", f"impl:{io.split(':')[0]}")
     for i, s in enumerate(solo):
         if "err" in s and s["err"].startswith("other:"):
             return Verdict("violation", f"rule {kinds[i]} alone raises non-Sigma {s['err']}", nt, key, tags=tags)
@@ -122,7 +140,7 @@ def judge(case, impl, reply):
         if io != "ok":
             return Verdict("violation", f"error collection is on but convert raised {io}: {impl.get('msg')} for {kinds}", nt, key, tags=tags)
         if impl["output"] != want_out:
-            return Verdict("violation", f"collection {kinds} (pipeline={case['pipe']}): emitted {impl['output']} but the rules converted alone give {want_out}", nt, key, tags=tags)
+            return Verdict("violation", f"collection {kinds} (pipeline={case['pipe']}, backend={case.get('backend', 'std')}): emitted {impl['output']} but the rules converted alone give {want_out}", nt, key, tags=tags)
         if impl["errors"] != want_err:
             return Verdict("violation", f"collection {kinds}: error records {impl['errors']} but failing rules are {want_err}", nt, key, tags=tags)
     else:
